@@ -9,7 +9,7 @@ wt = f"/tmp/seedwt-{P}{SUF}"; out = f"/tmp/seedout{SUF}"
 os.makedirs(out, exist_ok=True); os.makedirs("/tmp/seedprompts", exist_ok=True)
 if not os.path.exists(wt):
     subprocess.run(["git", "-C", "/repo", "worktree", "add", "-q", "--detach", wt, "HEAD"], check=True)
-t = open(os.path.join(here, "tools", ("seed_prompt_r6.txt" if SUF.endswith("r6") else "seed_prompt_r5.txt" if SUF.endswith("r5") else "seed_prompt_r4.txt" if SUF.endswith("r4") else "seed_prompt_r3.txt" if SUF.endswith("r3") else "seed_prompt.txt"))).read()
+t = open(os.path.join(here, "tools", ("seed_prompt_r7.txt" if SUF.endswith("r7") else "seed_prompt_r6.txt" if SUF.endswith("r6") else "seed_prompt_r5.txt" if SUF.endswith("r5") else "seed_prompt_r4.txt" if SUF.endswith("r4") else "seed_prompt_r3.txt" if SUF.endswith("r3") else "seed_prompt.txt"))).read()
 for k, v in {"{WT}": wt, "{OUT}": out, "{P}": P, "{N}": N, "{TITLE}": p["title"], "{STATEMENT}": p["statement"],
              "{QUANT}": p["quantifier"]["text"], "{FILES}": ", ".join(p["anchors"]["files"])}.items():
     t = t.replace(k, v)
